@@ -95,6 +95,8 @@ def run_scenario(scn: dict, *, eager: bool = False) -> dict:
     def fire(act: dict) -> None:
         t = act["t"]
         if act["c"] == "cancel":
+            if st["tasks"][1].done():
+                return      # (drifted run) nothing to cancel any more
             if st["stk"][1]:
                 emit(ev="cancel", t=1, n=1)
             st["rootscope"].cancel()
